@@ -14,7 +14,7 @@ use axelar_gas_service::{AxelarGasService, AxelarGasServiceClient};
 use axelar_soroban_std::types::Token;
 use serde_json::json;
 use soroban_sdk::xdr::ScVal;
-use soroban_sdk::{Address, Env};
+use soroban_sdk::{Address, Env, IntoVal, Val};
 use std::collections::BTreeMap;
 
 const OPS: [&str; 4] = ["pay_gas", "add_gas", "collect_fees", "refund"];
@@ -40,9 +40,10 @@ pub fn run(ctx: &Ctx, rep: &mut Report) {
         let mut rng = ctx.rng_for(uni);
         rep.begin_universe(uni);
         let mut u = U::new();
+        u.blanket_ok = true;
         let mut owner = u.principal();
         // in a quarter of the universes one address holds both roles
-        let collector = if rng.chance(1, 4) { owner.clone() } else { u.principal() };
+        let mut collector = if rng.chance(1, 4) { owner.clone() } else { u.principal() };
         let stranger = u.principal();
         let gs = u.env.register(AxelarGasService, (&owner, &collector));
         u.skip_events();
@@ -79,6 +80,7 @@ pub fn run(ctx: &Ctx, rep: &mut Report) {
         let mut sums: BTreeMap<(usize, &'static str), i128> = BTreeMap::new();
         let mut probe_refuses = false;
         let mut alive = true;
+        let unknown_fns = unknown_entry_points("axelar-gas-service", &["__constructor", "run_migration", "pay_gas", "add_gas", "collect_fees", "refund", "gas_collector", "owner", "transfer_ownership", "version", "upgrade", "migrate"]);
         for _ in 0..40 {
             if !alive {
                 alive = false;
@@ -109,6 +111,60 @@ pub fn run(ctx: &Ctx, rep: &mut Report) {
                 rep.step("the ownership of the gas service is transferred".into());
                 rep.count("ownership-transferred");
                 owner = new_owner;
+            }
+            // entry points this workload has never heard of, called by the role holders (everything
+            // authorised) with the addresses at hand: whatever they do, afterwards the collector is
+            // whoever the contract says it is, and nobody else moves funds out
+            if !unknown_fns.is_empty() && rng.chance(1, 10) {
+                let mut tuples: Vec<soroban_sdk::Vec<Val>> = Vec::new();
+                for args in [vec![stranger.to_val()], vec![collector.to_val(), stranger.to_val()], vec![owner.to_val(), stranger.to_val()], vec![]] {
+                    let mut v: soroban_sdk::Vec<Val> = soroban_sdk::Vec::new(&u.env);
+                    for a in args {
+                        v.push_back(a);
+                    }
+                    tuples.push(v);
+                }
+                let ck_roles = u.checkpoint();
+                // first by a stranger: the collector must read the same after every accepted call
+                'probe: for auth in [Auth::AllBy(stranger.clone()), Auth::Nobody] {
+                    if stranger == collector {
+                        break;
+                    }
+                    for name in &unknown_fns {
+                        for t in &tuples {
+                            if u.try_unknown(&gs, std::slice::from_ref(name), std::slice::from_ref(t), &auth) > 0 {
+                                let g2 = gs.clone();
+                                let now = u.query(move |env| AxelarGasServiceClient::new(env, &g2).try_gas_collector());
+                                if !matches!(&now, Ok(Ok(c)) if *c == collector) {
+                                    rep.violation("collector-changed-by-a-stranger-through-an-unknown-entry-point", format!("after a stranger's call of {} the contract names another collector", name));
+                                    alive = false;
+                                    break 'probe;
+                                }
+                            }
+                        }
+                    }
+                }
+                u.restore(&ck_roles);
+                if !alive {
+                    break;
+                }
+                let n = u.try_unknown(&gs, &unknown_fns, &tuples, &Auth::AsRecorded);
+                rep.count("unknown-entry-point-tried");
+                let g2 = gs.clone();
+                match u.query(move |env| AxelarGasServiceClient::new(env, &g2).try_gas_collector()) {
+                    Ok(Ok(c)) => {
+                        if n > 0 {
+                            rep.count("note:unknown-entry-point-accepted-a-call");
+                            rep.step(format!("{} call(s) of entry points outside the pinned interface were accepted; the contract now names {} as collector", n, if c == collector { "the same address" } else { "another address" }));
+                        }
+                        collector = c;
+                        let g2 = gs.clone();
+                        if let Ok(Ok(o)) = u.query(move |env| axelar_soroban_std::interfaces::OwnableClient::new(env, &g2).try_owner()) {
+                            owner = o;
+                        }
+                    }
+                    _ => u.restore(&ck_roles),
+                }
             }
             let op = *rng.pick(&OPS);
             let ti = rng.usize(3);
